@@ -66,6 +66,7 @@ Proof.
   - split; assumption.
   - destruct (rt s) eqn:E; split; cbn [pend dels table rt]; try assumption; unfold table in Ht; rewrite E in Ht; exact Ht.
   - split; cbn [pend dels table rt]; [exact Hp | intros e []].
+  - split; assumption.
 Qed.
 Lemma inv_run os : forall s, Inv s -> Inv (run s os).
 Proof. unfold run. induction os as [|o r IH]; intros s H; cbn [fold_left]; [exact H | apply IH, inv_step, H]. Qed.
